@@ -699,7 +699,15 @@ def main():
     assumption_lines = [f"{p}: {pat} x{len(lns)} [{tag}] lines {lns[:12]}{'...' if len(lns) > 12 else ''}" for (p, pat, tag), lns in sorted(by_tag.items())]
     assumption_lines += spec.get('assumptions', [])
     all_proof = n_ob > 0
+    # the evidence level is the level claimed in MANIFEST.json for this property
     level = spec.get('level', 'proof' if all_proof else 'model_checking')
+    try:
+        man = json.load(open(os.path.join(VERIF, 'MANIFEST.json')))
+        for c in man.get('checks', []):
+            if c['property_id'] == pid:
+                level = c['level_claimed']['category']
+    except Exception:
+        pass
     cov = {
         'obligations': n_ob + n_b, 'discharged': n_dis + n_bdis,
         'unbounded_obligations': n_ob, 'unbounded_discharged': n_dis,
